@@ -356,9 +356,9 @@ var chkBad = harness.Define("bytecount-mismatch", genBad, runBad)
 // ---------------------------------------------------------------------------
 
 func TestRandom(t *testing.T) {
-	chkResp.Rapid(t, harness.Pick(15000, 50000))
-	chkExc.Rapid(t, harness.Pick(3000, 20000))
-	chkBad.Rapid(t, harness.Pick(10000, 50000))
+	chkResp.Rapid(t, harness.Pick(15000, 500000))
+	chkExc.Rapid(t, harness.Pick(3000, 200000))
+	chkBad.Rapid(t, harness.Pick(10000, 500000))
 }
 
 func TestExceptionSweep(t *testing.T) {
